@@ -9,6 +9,7 @@ import rule_scopes
 from mirlib import AnchorMissing, path_matches
 from helpers import aggregates, enum_switches, vexpr
 import codec
+from props import c18 as _c18
 import entrypoints
 import panics
 
@@ -180,7 +181,7 @@ def r_decoder_preconditions(r, prog):
 
 def run(ctx):
     prog = ctx.prog
-    ctx.run_rule('C11.6', 'T13', 'conditions under which the decoders read, reserve, refuse and return (precondition ledger)', r_decoder_preconditions, prog)
+    ctx.run_rule('C11.8', 'T13', 'conditions under which the decoders read, reserve, refuse and return (precondition ledger)', r_decoder_preconditions, prog)
     ctx.run_rule('C11.1a', 'T7', 'panic-site ledger over slice-codec', r_codec_panic_ledger, prog)
     ctx.run_rule('C11.1b', 'T5', 'every error variant has a non-panicking rendering arm', r_error_rendering, prog)
     ctx.run_rule('C11.2', 'T2', 'unsafe-site table: every unsafe operation is dominated by the matching check of the same size', codec.r_unsafe_sites, prog)
@@ -193,6 +194,7 @@ def run(ctx):
     ctx.run_rule('C11.5', 'T1', 'reply decode errors are values: propagated, converted, never unwrapped', r_reply_errors_are_values, prog)
     ctx.run_rule('C11.6', 'T2', 'a failed read leaves the source untouched; peeks never consume', codec.r_failure_leaves_no_trace, prog)
     ctx.run_rule('C11.7', 'T10', 'reads advance by exactly the checked count', codec.r_read_advances_by_checked_count, prog)
+    ctx.run_rule('C11.9', 'T7', 'no panic-capable site on the path that handles the untrusted reply in the compiler (generator path of main.rs)', _c18.r_no_unwrap_in_generator_path, prog)
     for name, p in sorted(ctx.configs.items()):
         ctx.run_rule('C11.1a@' + name, 'T7', 'panic-site ledger over slice-codec [%s]' % name, r_codec_panic_ledger, p, name)
         ctx.run_rule('C11.2@' + name, 'T2', 'unsafe-site table [%s]' % name, codec.r_unsafe_sites if name != 'codec-nostd' else _unsafe_nostd, p)
